@@ -186,6 +186,111 @@ func runRandom(tracePath, scratch string, seed int64, ntraces, steps int, sum *t
 	sum.Rule = "seeded random histories with history limits, rollbacks and other forks, clean reopen (indexing switched on late), historic reads of every key at known roots; distinct = distinct operation/outcome sequences"
 }
 
+type behaviour struct {
+	Cfg struct {
+		MaxDiff   int    `json:"maxDiff"`
+		HistLimit uint64 `json:"histLimit"`
+		Pol       string `json:"pol"`
+		Async     bool   `json:"async"`
+	} `json:"cfg"`
+	NAcc  int              `json:"nacc"`
+	NSlot int              `json:"nslot"`
+	Acts  []map[string]any `json:"acts"`
+}
+
+func ints(v any) []int {
+	a := v.([]any)
+	out := make([]int, len(a))
+	for i, x := range a {
+		out[i] = int(x.(float64))
+	}
+	return out
+}
+
+// runSim replays TLC-generated behaviours of MCPathDBIndexSim on a fresh database with
+// indexing enabled; after every step every key is read at every known root.
+func runSim(in, tracePath, scratch string, sum *tl.Summary) {
+	var bs []behaviour
+	tl.ReadJSON(in, &bs)
+	tr := pdb.NewTrace(tracePath)
+	defer tr.Close()
+	seen := map[string]bool{}
+	for bi, b := range bs {
+		cfg := pdb.Config{MaxDiff: b.Cfg.MaxDiff, HistLimit: b.Cfg.HistLimit, BufSize: 1 << 22, CleanCache: 1 << 20, Async: b.Cfg.Async, Index: true, Cancun: bi%2 == 1}
+		if b.Cfg.Pol == "always" {
+			cfg.BufSize = 0
+		}
+		shape := pdb.Shape{NAcc: b.NAcc, NSlot: b.NSlot}
+		rn := newRunner(shape, cfg, filepath.Join(scratch, fmt.Sprintf("sim-%d", bi)), tr, sum, int64(bi), tl.M{"src": "tlc"})
+		rn.Full = true
+	acts:
+		for _, a := range b.Acts {
+			roots := rn.ChainRoots()
+			switch a["op"].(string) {
+			case "Update":
+				j := int(a["j"].(float64))
+				if j >= len(roots) {
+					break acts
+				}
+				p := rn.E.WorldOfRoot(roots[j])
+				n := p.Copy()
+				touch := map[int]bool{}
+				for k, v := range ints(a["d"]) {
+					if v == -1 {
+						continue
+					}
+					if v == p[k] {
+						touch[k] = true
+					}
+					n[k] = v
+					if cfg.Cancun && shape.IsAcct(k) && v == 0 && p[k] != 0 {
+						for q := k + 1; q < len(p) && shape.Owner(q) == k; q++ {
+							if p[q] != 0 {
+								break acts // Cancun rules forbid deleting an account that still has storage
+							}
+						}
+					}
+				}
+				if rn.Update(j, n, touch, nil) == "fail" {
+					break acts
+				}
+			case "Commit":
+				i := int(a["i"].(float64))
+				if i >= len(roots) {
+					break acts
+				}
+				if rn.Commit(i) == "err" && i > 0 {
+					break acts
+				}
+			case "Recover":
+				rn.Recover(pdb.World(ints(a["w"])))
+			case "Reopen":
+				i := int(a["i"].(float64))
+				if i >= len(roots) {
+					break acts
+				}
+				rn.ReopenWithIndex(i, true)
+			case "IndexRun":
+				continue // the harness waits for the indexer after every open
+			}
+			readSome(rn, 1000)
+		}
+		rn.Close()
+		sum.Traces++
+		sum.Evaluations++
+		key := fmt.Sprint(b.Cfg, b.Acts)
+		if !seen[key] {
+			seen[key] = true
+			sum.Distinct++
+		}
+		if bi < 2 {
+			sum.Sample(tl.M{"cfg": b.Cfg, "acts": b.Acts})
+		}
+	}
+	sum.Steps = tr.N
+	sum.Rule = "every TLC-generated behaviour of MCPathDBIndexSim is executed on a fresh real database with indexing; after each step every key is read at every known root; distinct = distinct (configuration, action sequence)"
+}
+
 // runGate drives the partially-indexed states deterministically: histories are produced
 // with indexing off, the database is reopened with indexing on while a gate (blocking
 // verif hook in indexIniter.index) holds the background indexer before its first history;
@@ -268,7 +373,7 @@ func main() {
 	out := flag.String("out", "summary.json", "summary output")
 	n := flag.Int("n", 20, "number of traces")
 	steps := flag.Int("steps", 60, "steps per trace")
-	flag.String("in", "", "behaviours json (mode sim)")
+	in := flag.String("in", "", "behaviours json (mode sim)")
 	flag.Parse()
 	seed := int64(tl.EnvInt("VERIF_SEED", 1))
 	sum := tl.NewSummary("c18", *mode, seed)
@@ -277,6 +382,9 @@ func main() {
 	switch *mode {
 	case "random":
 		runRandom(*trace, scratch, seed, *n, *steps, sum)
+	case "sim":
+		sum.Mode = "replay"
+		runSim(*in, *trace, scratch, sum)
 	case "gate":
 		runGate(*trace, scratch, seed, *n, sum)
 	default:
